@@ -139,18 +139,18 @@ fn fp_sporadic_body(s: &mut crate::Src, kind: Kind, limit_max: u64) {
     let want = spec::fp_generic(|d| sporadic_na(t1, j1, d) * c1, |d| sporadic_na(t2, j2, d) * c2, b, rem, limit);
     assert!(to_spec(&got) == want);
     assert!(err_payload_ok(&got, limit));
-    cover!(matches!(want, Some(r) if r >= 4) && j1 > t1, "Ok(R) with R >= 4 and jitter larger than the period");
+    cover!(matches!(want, Some(r) if r >= 3) && j1 >= t1, "Ok(R) with R >= 3 and jitter at least the period");
     cover!(want.is_none(), "divergence");
 }
-harness!(c06_fp_p_sporadic_q, 8, |s| { fp_sporadic_body(s, Kind::Preemptive, 6); });
-harness!(c06_fp_np_sporadic_q, 8, |s| { fp_sporadic_body(s, Kind::NonPreemptive, 6); });
+harness!(c06_fp_p_sporadic_t, 8, |s| { fp_sporadic_body(s, Kind::Preemptive, 6); });
+harness!(c06_fp_np_sporadic_t, 8, |s| { fp_sporadic_body(s, Kind::NonPreemptive, 6); });
 harness!(c06_fp_lp_sporadic_t, 8, |s| { fp_sporadic_body(s, Kind::Limited, 6); });
 
 pub fn register(t: &mut Table) {
     reg!(t;
         c06_fp_p_q, c06_fp_np_q, c06_fp_lp_q, c06_fp_fl_q,
         c06_edf_p_q, c06_edf_np_q, c06_edf_lp_q, c06_edf_fl_q, c06_fifo_q, c06_fifo_single_q, c06_fp_np_single_q,
-        c06_fp_p_sporadic_q, c06_fp_np_sporadic_q, c06_fp_lp_sporadic_t,
+        c06_fp_p_sporadic_t, c06_fp_np_sporadic_t, c06_fp_lp_sporadic_t,
         c06_fp_p_t, c06_fp_np_t, c06_fp_lp_t, c06_fp_fl_t,
         c06_edf_p_t, c06_edf_np_t, c06_edf_lp_t, c06_edf_fl_t, c06_fifo_t, c06_edf_np_never_t, c06_edf_fl_two_others_t, c06_edf_np_two_others_t,
     );
